@@ -29,7 +29,7 @@ from ..paths import ALL_LABELS, EXC_LABELS, NORMAL_LABELS, Search
 from ..program import AnalysisError, FuncEnv, FuncUnit, dotted, unparse
 from ..report import Collector
 from ..roles import store_field
-from .common import in_loop_body, loop_region, path_text, publishes
+from .common import hidden_marker_fields, in_loop_body, loop_region, path_text, publishes
 from .on import _marks
 
 
@@ -75,7 +75,7 @@ def rule_cancelled_execution(ctx: Ctx, out: Collector) -> None:
                 if isinstance(c, ast.Call) and isinstance(c.func, ast.Attribute) and c.func.attr in ('delete', 'pop', 'discard', 'remove') \
                         and c.args:
                     recv = sym.term(ctx.p, c.func.value, ev.inst)
-                    if store_field(recv) == 'processed_nodes' or (isinstance(recv, tuple) and recv[0] == 'attr' and recv[2] in ('data', '_hidden_keys')
+                    if store_field(recv) == 'processed_nodes' or (isinstance(recv, tuple) and recv[0] == 'attr' and recv[2] in ({'data'} | hidden_marker_fields(ctx))
                                                                   and store_field(recv[1]) == 'processed_nodes'):
                         if sym.term(ctx.p, c.args[0], ev.inst) == K:
                             barrier.add(ev.id)
@@ -119,8 +119,14 @@ def rule_stored_failure_not_a_value(ctx: Ctx, out: Collector) -> None:
     n = 0
     seen = set()
 
-    def is_mark_read(a) -> bool:
-        return isinstance(a, tuple) and a and a[0] == 'call' and len(a) > 2 and bool(a[2]) and store_field(a[2][0]) == 'processed_nodes'
+    def mark_key(a):
+        """the key whose processed-mark the atom reads (a call on the store, or the membership the store's predicate is made of)"""
+        if isinstance(a, tuple) and a and a[0] == 'call' and len(a) > 2 and len(a[2]) > 1 and store_field(a[2][0]) == 'processed_nodes':
+            return a[2][1]
+        if isinstance(a, tuple) and a and a[0] == 'cmp' and a[1] == 'In' and len(a) > 3 and isinstance(a[3], tuple) and a[3] \
+                and a[3][0] == 'attr' and (a[3][2] == 'processed_nodes' or (a[3][2] == 'data' and store_field(a[3][1]) == 'processed_nodes')):
+            return a[2]
+        return None
 
     for fid, g in ctx.run_graphs().items():
         if not any(isinstance(x, ast.Attribute) and x.attr == 'is_oneof' for u in {e.inst.unit for e in g.events('entry')}
@@ -145,7 +151,7 @@ def rule_stored_failure_not_a_value(ctx: Ctx, out: Collector) -> None:
                 # 2: ... and the stored result was tested for being a failure / the scope is known to be a one-of scope
                 if prev is not None and prev.kind == 'branch' and prev.info.get('test') is not None and lab in ('T', 'F'):
                     tt = sym.term(ctx.p, prev.info['test'], prev.inst)
-                    if state == 0 and implies(tt, lab == 'T', lambda a, Kret=Kret: is_mark_read(a) and len(a[2]) > 1 and a[2][1] == Kret):
+                    if state == 0 and implies(tt, lab == 'T', lambda a, Kret=Kret: mark_key(a) is not None and mark_key(a) == Kret):
                         return 1
                     if state >= 1:
                         txt = sym.show(tt)
